@@ -86,6 +86,26 @@ def _compare(ctx, what, args_desc, impl, model):
     return True
 
 
+def _flag(v, *key):
+    """the same truth value in one of the forms callers use for a boolean flag (bool / int 0,1 as the library itself passes / numpy bool as a
+    comparison returns), chosen as a function of the case so that a run is reproducible without consuming the generator"""
+    import zlib
+    k = zlib.crc32(repr(key).encode()) % 3
+    return (bool(v), int(bool(v)), np.bool_(bool(v)))[k]
+
+
+def _scribble(obj):
+    """overwrite a returned operator in place (what a caller may legitimately do with its own result)"""
+    if sp.issparse(obj):
+        if obj.data.size:
+            obj.data[:] = -7
+        return True
+    if isinstance(obj, np.ndarray) and obj.flags.writeable and obj.size:
+        obj[...] = -7
+        return True
+    return False
+
+
 def check_permute(ctx, form, dims_r, dims_c, perm, row_only, inv, dtype, dim_form, sparse=False):
     n = len(perm)
     R, C = int(np.prod(dims_r)), int(np.prod(dims_c))
@@ -107,7 +127,7 @@ def check_permute(ctx, form, dims_r, dims_c, perm, row_only, inv, dtype, dim_for
     else:  # two-row
         dim_py, dim_js = [list(dims_r), list(dims_c)], [list(dims_r), list(dims_c)]
     Xin = sp.csr_matrix(X.real.astype(float)) if sparse else (present(ctx.rng, X, allow_dtype=False) if X.ndim == 2 else X)
-    impl = _call(permute_systems, Xin, list(perm), dim_py, row_only, inv)
+    impl = _call(permute_systems, Xin, list(perm), dim_py, _flag(row_only, "ro", form, dims_r, dims_c, perm, dim_form), _flag(inv, "inv", form, dims_r, dims_c, perm, dim_form))
     args = {"shape": shape, "data": list(range(int(np.prod(shape)))), "perm": list(perm), "dim": dim_js,
             "row_only": int(row_only), "inv": int(inv)}
     model = ctx.lean().ask("permute_systems", args)
@@ -158,14 +178,14 @@ def check_swap(ctx, form, dims_r, dims_c, sys, row_only, dim_form):
 
 
 def check_permop(ctx, dims, perm, inv, sparse):
-    impl = _call(permutation_operator, list(dims), list(perm), inv, sparse)
+    impl = _call(permutation_operator, list(dims), list(perm), _flag(inv, "inv", dims, perm, sparse), _flag(sparse, "sp", dims, perm, inv))
     model = ctx.lean().ask("permutation_operator", {"dim": list(dims), "perm": list(perm), "inv": int(inv)})
     desc = {"fn": "permutation_operator", "dims": dims, "perm": perm, "inv": inv, "sparse": sparse}
     ctx.case(desc, perm != sorted(perm) and len(set(d for d in dims if d > 1)) >= 2, f"permop/sparse={int(sparse)}/inv={int(inv)}")
     ok = _compare(ctx, "permutation_operator", desc, impl, model)
     if ok and impl[0] == "ok":
         # operator laws on the implementation side: P is a permutation matrix and acts like row_only
-        P = impl[1].toarray() if sp.issparse(impl[1]) else np.asarray(impl[1])
+        P = impl[1].toarray() if sp.issparse(impl[1]) else np.array(impl[1], copy=True)
         N = P.shape[0]
         if not (np.array_equal(P @ P.T, np.eye(N)) and set(np.unique(P)) <= {0.0, 1.0}):
             ctx.violation("permutation_operator is not a permutation matrix", {"function": "permutation_operator", "args": desc})
@@ -175,6 +195,13 @@ def check_permop(ctx, dims, perm, inv, sparse):
         if rhs[0] != "ok" or not np.array_equal(lhs, rhs[1]):
             ctx.violation("row_only permute_systems differs from left multiplication by permutation_operator",
                           {"function": "permute_systems(row_only)", "args": desc, "theorem": "rowOnly_eq_permOp_mul"})
+        # every call returns its own operator: overwriting a returned operator must not change what the next identical call returns
+        if _scribble(impl[1]):
+            again = _call(permutation_operator, list(dims), list(perm), inv, sparse)
+            ctx.count("permop/fresh-object-checks")
+            if again[0] != "ok" or not np.array_equal(again[1].toarray() if sp.issparse(again[1]) else np.asarray(again[1]), P):
+                ctx.violation("permutation_operator: a second identical call returns something else after the first result was overwritten in place "
+                              "(the returned operator is shared between calls)", {"function": "permutation_operator", "args": desc, "check": "fresh-object"})
     return ok
 
 
@@ -184,7 +211,15 @@ def check_swapop(ctx, dim, sparse):
     model = ctx.lean().ask("permutation_operator", {"dim": dims, "perm": [1, 0], "inv": 0})
     desc = {"fn": "swap_operator", "dim": dim, "sparse": sparse}
     ctx.case(desc, dims[0] != dims[1] and min(dims) > 1, f"swapop/sparse={int(sparse)}")
-    return _compare(ctx, "swap_operator", desc, impl, model)
+    ok = _compare(ctx, "swap_operator", desc, impl, model)
+    if ok and impl[0] == "ok":
+        P = impl[1].toarray() if sp.issparse(impl[1]) else np.array(impl[1], copy=True)
+        if _scribble(impl[1]):
+            again = _call(swap_operator, dim, sparse)
+            if again[0] != "ok" or not np.array_equal(again[1].toarray() if sp.issparse(again[1]) else np.asarray(again[1]), P):
+                ctx.violation("swap_operator: a second identical call returns something else after the first result was overwritten in place",
+                              {"function": "swap_operator", "args": desc, "check": "fresh-object"})
+    return ok
 
 
 def check_roundtrip(ctx, dims, perm):
